@@ -1454,12 +1454,9 @@ func (r *Runtime) RunScript(name, src string) (Value, error) {
 }
 
 func isUncatchableException(e error) bool {
-	for ; e != nil; e = errors.Unwrap(e) {
-		if _, ok := e.(uncatchableException); ok {
-			return true
-		}
-	}
-	return false
+	// errors.As (unlike a loop over errors.Unwrap) also looks inside multi-errors (errors.Join, fmt.Errorf with several %w).
+	var u uncatchableException
+	return errors.As(e, &u)
 }
 
 func asUncatchableException(v interface{}) error {
